@@ -26,26 +26,28 @@ def norm(t):
     return re.sub(r" ?([(){}\[\],.;|&!=*<>]) ?", r"\1", t).replace(",)", ")").replace(",}", "}")
 
 
-BODY_PREFIX = norm("""{
-    let inner = &source[3..source.len() - 3];
-    let common_indent = get_common_indent(inner);
+_HEADS = {
+    False: """let inner = &source[3..source.len() - 3];
+    let common_indent = get_common_indent(inner);""",
+    True: """let inner = source[3..source.len() - 3].replace("\\r\\n", "\\n").replace('\\r', "\\n");
+    let common_indent = get_common_indent(&inner);""",
+}
+_DEDENTS = {
+    "skip-characters": "line.chars().skip(common_indent).collect::<String>()",
+    "slice-or-keep": "line.get(common_indent..).unwrap_or(line).to_string()",
+}
+BODY_PREFIXES = {}
+for _cr, _head in _HEADS.items():
+    for _dk, _dexpr in _DEDENTS.items():
+        BODY_PREFIXES[(_cr, _dk)] = norm("""{
+    %s
     let mut formatted_lines = inner.lines().enumerate().map(|(i, line)| {
-            if i == 0 { line.to_string() } else { line.chars().skip(common_indent).collect::<String>() }
+            if i == 0 { line.to_string() } else { %s }
         }).collect::<VecDeque<String>>();
     while formatted_lines.front().is_some_and(|line| line_is_whitespace(line)) { formatted_lines.pop_front(); }
     while formatted_lines.back().is_some_and(|line| line_is_whitespace(line)) { formatted_lines.pop_back(); }
     let lines_vec: Vec<String> = formatted_lines.into_iter().collect();
-    lines_vec.join("\\n")""")
-BODY_PREFIX_CR = norm("""{
-    let inner = source[3..source.len() - 3].replace("\\r\\n", "\\n").replace('\\r', "\\n");
-    let common_indent = get_common_indent(&inner);
-    let mut formatted_lines = inner.lines().enumerate().map(|(i, line)| {
-            if i == 0 { line.to_string() } else { line.chars().skip(common_indent).collect::<String>() }
-        }).collect::<VecDeque<String>>();
-    while formatted_lines.front().is_some_and(|line| line_is_whitespace(line)) { formatted_lines.pop_front(); }
-    while formatted_lines.back().is_some_and(|line| line_is_whitespace(line)) { formatted_lines.pop_back(); }
-    let lines_vec: Vec<String> = formatted_lines.into_iter().collect();
-    lines_vec.join("\\n")""")
+    lines_vec.join("\\n")""" % (_head, _dexpr))
 COMMON_INDENT = norm("""{
     let lines = source.lines().skip(1);
     let mut common_indent: Option<usize> = None;
@@ -86,12 +88,11 @@ CFG = {"prop": "C30", "file": F_SRC, "driver": "schema_driver", "what": "the des
 def extract(cfg=CFG):
     src = read_repo(cfg["file"])
     b = norm(body_of(src, "clean_block_string_literal"))
-    if b.startswith(BODY_PREFIX):
-        rest, split_cr = b[len(BODY_PREFIX):], False
-    elif b.startswith(BODY_PREFIX_CR):
-        rest, split_cr = b[len(BODY_PREFIX_CR):], True
-    else:
+    hit = [(k, pre) for k, pre in BODY_PREFIXES.items() if b.startswith(pre)]
+    if not hit:
         raise Inconclusive("encoding not regenerable: clean_block_string_literal is not the recognised statement sequence")
+    (split_cr, dedent), pre = hit[0]
+    rest = b[len(pre):]
     m = re.fullmatch(r"((?:\.replace\((?:\"(?:[^\"\\]|\\.)*\"|'(?:[^'\\]|\\.)+'),\"(?:[^\"\\]|\\.)*\"\))*)\}", rest)
     if not m:
         raise Inconclusive("encoding not regenerable: unrecognised tail of clean_block_string_literal: %s" % rest[:120])
@@ -104,7 +105,7 @@ def extract(cfg=CFG):
     for c in cfg["callers"]:
         if c not in nsrc:
             raise Inconclusive("encoding not regenerable: the caller no longer stores clean_block_string_literal(token text): %s" % c[:80])
-    return {"result_replace_chain": chain, "common_indent_over": indent_over, "lone_cr_ends_a_line": split_cr}
+    return {"result_replace_chain": chain, "common_indent_over": indent_over, "lone_cr_ends_a_line": split_cr, "dedent": dedent}
 
 
 S = z3.StringVal
@@ -129,7 +130,7 @@ def _replace_all_bounded(term, a, b, k=3):
     return rep_from(term, k)
 
 
-def build(shape, seps, tag, q, unescape_in_model_chain, indent_over="lines-with-content", split_cr=False):
+def build(shape, seps, tag, q, unescape_in_model_chain, indent_over="lines-with-content", split_cr=False, dedent="skip-characters"):
     """shape: per line None (blank) or a tuple of units ('p' plain / 'e' escaped triple quote). Returns (token text term,
     model value term, spec value term, concrete builder info)."""
     L = len(shape)
@@ -158,7 +159,7 @@ def build(shape, seps, tag, q, unescape_in_model_chain, indent_over="lines-with-
         inner = piece if inner is None else z3.Concat(inner, S(seps[i - 1]), piece)
     token = z3.Concat(S(TQ), inner, S(TQ))
 
-    def value(contents, chain, over="lines-with-content", split_cr=True):
+    def value(contents, chain, over="lines-with-content", split_cr=True, dedent="skip-characters"):
         """logical lines: the pieces, except that a lone CR does not end a line when split_cr is False (str::lines)"""
         groups = [[0]]
         for i in range(1, L):
@@ -188,7 +189,14 @@ def build(shape, seps, tag, q, unescape_in_model_chain, indent_over="lines-with-
             ci = z3.If(ci >= 1000, z3.IntVal(0), ci)
         else:
             ci = z3.IntVal(0)
-        lines = [g_text[k] if k == 0 else z3.SubString(g_text[k], ci, z3.Length(g_text[k])) for k in range(G)]
+        def cut(t):
+            if dedent == "slice-or-keep":       # line.get(n..).unwrap_or(line): a line shorter than n is kept as it is
+                return z3.If(z3.Length(t) >= ci, z3.SubString(t, ci, z3.Length(t)), t)
+            return z3.SubString(t, ci, z3.Length(t))
+        lines = [g_text[k] if k == 0 else cut(g_text[k]) for k in range(G)]
+        if dedent == "slice-or-keep":
+            # blankness is judged after the cut: a kept short line is still whitespace only, so the static blank flags stay right
+            pass
         keep = [k for k in range(G) if not g_blank[k]]
         if not keep:
             return S("")
@@ -200,9 +208,9 @@ def build(shape, seps, tag, q, unescape_in_model_chain, indent_over="lines-with-
     # the recognised replace chain acts on the joined result; within the alphabet (no quote or backslash outside the escape unit) every
     # occurrence of the escape is an escape unit, so replacing all occurrences equals taking each unit's replaced text
     if unescape_in_model_chain == []:
-        mval = value(content_raw, [], indent_over, split_cr)
+        mval = value(content_raw, [], indent_over, split_cr, dedent)
     elif unescape_in_model_chain == [(ETQ, TQ)]:
-        mval = value(content_val, [], indent_over, split_cr)
+        mval = value(content_val, [], indent_over, split_cr, dedent)
     else:
         raise Inconclusive("encoding not regenerable: replace chain %r on the result is outside the supported subset" % (unescape_in_model_chain,))
     return token, mval, value(content_val, [], "lines-with-content", True), (ws,)
@@ -252,8 +260,17 @@ def main(cfg=CFG):
         # ---- stage 0 (not solver-decided; a guard that does not depend on the extractor): probe tokens through the real parser
         PROBES = ['"""aa"""', '"""\n a\n  a#\n \u00e9\n"""', '"""a\n  a"""', '"""\n\n \t\n  a \n\n"""', '"""  a\n  a\n \u00e9"""', '"""a\r\n a\r\n  #"""',
                   '"""\u00e9 #\n\t\u00e9"""', '"""a\\"""a"""', '"""\n  \\"""\n  a\n"""', '""""""', '"""  """', '"""\n  a\n"""', '"""hello\n    world\n      !"""', '"""a\r  a\r   #"""', '"""\r a\r"""']
-        real = run_driver(binary, PROBES)
-        for tok, r in zip(PROBES, real):
+        # plus a systematic battery: every block string of up to 3 lines whose lines are 0-3 spaces (or a tab) followed by nothing, `a`, or `a `,
+        # joined by one kind of line terminator
+        line_opts = [ind + c for ind in ("", " ", "  ", "   ", "\t") for c in ("", "a", "a ")]
+        GUARD = list(PROBES)
+        for L_ in (2, 3):
+            for combo in itertools.product(line_opts, repeat=L_):
+                for sep in ("\n", "\r\n"):
+                    GUARD.append(TQ + sep.join(combo) + TQ)
+        real_all = run_driver(binary, GUARD)
+        real = real_all[:len(PROBES)]
+        for tok, r in zip(GUARD, real_all):
             want = spec_concrete(tok)
             if r.get("error") or r.get("description") != want:
                 rp = os.path.join(REPLAYS, PROP, "probe_guard")
@@ -267,6 +284,7 @@ def main(cfg=CFG):
                 violations.append(("native probe guard: the description %r is read as %r; the specification's BlockStringValue is %r" % (tok, r.get("description"), want), rp))
                 samples.append({"token": tok, "real": r, "spec": want, "stage": "probe guard"})
                 break
+        samples.append({"native_guard_block_strings": len(GUARD)})
         X = extract(cfg)
         chain = X["result_replace_chain"]
         # ---- translator validation: the composed term, pinned to the probe tokens it can express, equals the real parser
@@ -297,7 +315,7 @@ def main(cfg=CFG):
                 continue
             shape, seps, pins = so
             q = Query("C30_validate", simple=True)
-            token, mval, sval, _ = build(shape, seps, "v", q, chain, X["common_indent_over"], X["lone_cr_ends_a_line"])
+            token, mval, sval, _ = build(shape, seps, "v", q, chain, X["common_indent_over"], X["lone_cr_ends_a_line"], X["dedent"])
             q.add(token == S(tok))
             out = z3.String("out")
             q.add(out == mval)
@@ -322,7 +340,7 @@ def main(cfg=CFG):
                     if L > 2 and len(set(seps)) > 1:
                         continue        # bound: one kind of line terminator per string once there are three or more lines
                     q = Query("C30_shape", solver_timeout_s=60, simple=True)
-                    token, mval, sval, _ = build(list(shape), list(seps), "s", q, chain, X["common_indent_over"], X["lone_cr_ends_a_line"])
+                    token, mval, sval, _ = build(list(shape), list(seps), "s", q, chain, X["common_indent_over"], X["lone_cr_ends_a_line"], X["dedent"])
                     q.add(mval != sval)
                     r = q.check(cross_check=False)
                     n_q += 1
